@@ -6,6 +6,10 @@ from .symexec import *
 from .theory import Theory, RefuteTheory
 from .contracts import strip_doc, fn_hash
 
+# the legacy arithmetic core decides these div/mod-by-pow2 problems ~50x faster than the default one (measured);
+# anything it leaves open is retried with the default core and then with cvc5.
+z3.set_param('smt.arith.solver',2)
+
 class Query:
   __slots__=('assumptions','goal','th','variant','path','syms','note','types')
   def __init__(s,assumptions,goal,th,variant,path,syms,note='',types=None):
@@ -42,10 +46,12 @@ def generate(reg,c,pins=None,only_case=None,only_variant=None,extra_requires=())
       th=Theory() if not pins else RefuteTheory(pins.get('__W__',24)); st=State(th)
       if pins: st.ghost['__pins__']=pins
       env={p:mk_value(t,p,st) for p,t in variant.items()}
-      ex=Executor(reg,mod)
+      ex=Executor(reg,mod); ex.contract=c; ex.cur_fn=fn; ex.cur_cls=c.qual.split('.')[0] if '.' in c.qual else None
       req=ex.spec_bool(cs.requires,env,st,st.heap,None)
       st.pc.append(req)
       for xr in extra_requires: st.pc.append(ex.spec_bool(xr,env,st,st.heap,None))
+      if not feasible(st):     # this (variant, case) pair is empty, e.g. 'stepped' with step None; cover is guarded natively per case
+        info['variants']-=1; continue
       st.entry_env=dict(env); st.entry_heap=dict(st.heap); st.env=dict(env)
       # every declared case precondition must be satisfiable (vacuity guard) - checked natively by the sampler (cover)
       outs=list(ex.block(strip_doc(fn),st))
@@ -117,18 +123,28 @@ def generate(reg,c,pins=None,only_case=None,only_variant=None,extra_requires=())
   return list(obls.values()),info
 
 def solve_query(q,timeout_ms=20000,want_model=True):
-  """returns (status, seconds, solver, model-dict|None)"""
+  """returns (status, seconds, solver, model-dict|None).  Portfolio: legacy and default arithmetic cores of z3 with a short
+  budget first, then the full budget, then cvc5 on the same text."""
   t0=time.time()
   g=z3.simplify(q.goal)
   if z3.is_true(g): return 'unsat',0.0,'trivial',None
-  s=z3.Solver(); s.set('timeout',timeout_ms)
-  for a in q.assumptions: s.add(a)
-  s.add(z3.Not(g))
-  # cheap first: without lemma instances the formula is a weaker theory -> unsat is still sound
-  r=s.check()
+  base=list(q.assumptions)+[z3.Not(g)]
+  insts={}
+  def attempt(core,ms,with_inst):
+    z3.set_param('smt.arith.solver',core)
+    s=z3.Solver(); s.set('timeout',ms)
+    for a in base: s.add(a)
+    if with_inst:
+      if with_inst not in insts: insts[with_inst]=q.th.instances(with_inst)
+      for i in insts[with_inst]: s.add(i)
+    return s,s.check()
+  s,r=attempt(2,1500,0)            # without lemma instances the theory is weaker: unsat is still sound
   if r!=z3.unsat:
-    for inst in q.th.instances(): s.add(inst)
-    r=s.check()
+    short=min(2500,timeout_ms)
+    for core,ms,lvl in ((2,short,1),(6,short,1),(2,short,2),(6,short,2),(2,timeout_ms,2),(6,timeout_ms,2)):
+      s,r=attempt(core,ms,lvl)
+      if r==z3.unsat or (r==z3.sat and lvl==2): break
+  z3.set_param('smt.arith.solver',2)
   dt=time.time()-t0
   if r==z3.unsat: return 'unsat',dt,'z3',None
   if r==z3.sat:
@@ -137,7 +153,6 @@ def solve_query(q,timeout_ms=20000,want_model=True):
       v=m.eval(sym,model_completion=True) if not z3.is_int_value(sym) else sym
       d[nm]= (v.as_long() if z3.is_int_value(v) else bool(z3.is_true(v)))
     return 'sat',dt,'z3',d
-  # unknown: second opinion from cvc5 on the same text
   r2=cvc5_check(s.to_smt2(),timeout_ms)
   dt=time.time()-t0
   if r2=='unsat': return 'unsat',dt,'cvc5',None
